@@ -55,7 +55,7 @@ fn scripts(tier: Tier) -> Vec<Script> {
         seed_ops: vec![t(), ins(vec![vec![Val::Int(1), Val::s("one")]])],
         ops: vec![Op::RemoveSignature, Op::Flush, Op::Summary(SumOp::SetAuthor("Jane".into())), Op::Flush],
     });
-    if tier.thorough() {
+    {
         // a string pool larger than the container's 8 KiB buffer: reads of the
         // pool during open span several buffer refills
         let distinct: Vec<Vec<Val>> = (1..=2500).map(|i| vec![Val::Int(i), Val::Str(format!("string-number-{:05}", i))]).collect();
@@ -65,6 +65,8 @@ fn scripts(tier: Tier) -> Vec<Script> {
             seed_ops: vec![t(), ins(distinct)],
             ops: vec![Op::Update { table: "T".into(), sets: vec![("S".into(), Val::s("changed"))], cond: Some(E::bin(Bin::Eq, E::col("K"), E::int(2500))) }, Op::Flush],
         });
+    }
+    if tier.thorough() {
         let many: Vec<Vec<Val>> = (1..=3000).map(|i| vec![Val::Int(i), Val::Str(format!("s{}", i % 7))]).collect();
         v.push(Script { name: "S3-insert-3000-rows", signed: false, seed_ops: vec![t()], ops: vec![ins(many), Op::Flush] });
         v.push(Script { name: "S5-user-stream", signed: false, seed_ops: vec![], ops: vec![Op::WriteStream { name: "Data".into(), len: 9000, seed: 3 }, Op::Flush, Op::WriteStream { name: "small".into(), len: 10, seed: 4 }, Op::Flush] });
